@@ -171,6 +171,17 @@ def check(case):
     # ---- reference model of the loop, replayed over the trace
     if ev[0][0] != "eval" or not np.array_equal(ev[0][1], mob0):
         raise PropertyViolation("initial-evaluation", "%s: the first evaluation is not the initial configuration" % label)
+    # every value the search works with is the overlap measure (C08's definition) of the configuration it was computed
+    # for - whatever was evaluated, accepted or rejected before on the same calculator
+    rl = [tuple(r) for r in restr]
+    for k_ev, e in enumerate(ev):
+        if e[0] != "eval":
+            continue
+        exp_val, _, tie = indep.naive_chi2(fixed, e[1], rl)
+        if not tie and not abs(e[2] - exp_val) <= 1e-9 * max(abs(exp_val), 1e-9):
+            raise PropertyViolation("measure-of-configuration", "%s: evaluation %d of the search gives %.12g, the overlap "
+                                    "measure of that configuration is %.12g" % (label, k_ev, e[2], exp_val),
+                                    cls="measure-of-configuration")
     held, e_held = ev[0][1], ev[0][2]
     e_min = e_held
     counter = 0
